@@ -24,9 +24,19 @@ def run_witnesses(ctx, rep, tier, kinds=None):
     env.pop('RUSTC_WRAPPER', None)
     env.pop('RUSTFLAGS', None)
     t0 = time.time()
-    r = subprocess.run(['cargo', '+stable', 'check', '--offline', '--workspace', '--keep-going', '--message-format=json', '-q'],
-                       cwd=wdir, env=env, capture_output=True, text=True)
-    ctx.log('witnesses: cargo check over %d crates in %.1fs' % (len(wits) + 1, time.time() - t0))
+    # a witness must be REJECTED, not make the compiler hang: the whole run has a deadline (normally it takes seconds)
+    deadline = 420 if tier == 'quick' else 1500
+    hung = False
+    try:
+        r = subprocess.run(['cargo', '+stable', 'check', '--offline', '--workspace', '--keep-going', '--message-format=json', '-q'],
+                           cwd=wdir, env=env, capture_output=True, text=True, timeout=deadline)
+    except subprocess.TimeoutExpired as e:
+        hung = True
+        out = e.stdout if isinstance(e.stdout, str) else (e.stdout or b'').decode('utf-8', 'replace')
+        err = e.stderr if isinstance(e.stderr, str) else (e.stderr or b'').decode('utf-8', 'replace')
+        r = subprocess.CompletedProcess(e.cmd, 124, out, err)
+        subprocess.run(['pkill', '-f', 'target-wit'], capture_output=True)
+    ctx.log('witnesses: cargo check over %d crates in %.1fs%s' % (len(wits) + 1, time.time() - t0, ' (DEADLINE EXCEEDED)' if hung else ''))
     msgs = {}
     finished_ok = set()
     for line in r.stdout.splitlines():
@@ -69,6 +79,12 @@ def run_witnesses(ctx, rep, tier, kinds=None):
         where = 'witness %s/%s/%s' % (w['kind'], w['variant'], w['macro'])
         errs = [m for m in msgs.get(name, []) if m['level'] == 'error']
         compiled = name in finished_ok
+        if hung and not compiled and not errs:
+            rep.inst('W', '%s: the compiler did not finish within %ds' % (where, deadline))
+            rep.programs.add(name)
+            rep.viol('W', where, 'compiler-hangs', 'the macro neither rejects nor accepts this program: the expansion does not terminate '
+                     '(no result for this witness within the %ds allowed for the whole witness run)' % deadline)
+            continue
         texts = [m['message'] for m in errs]
         rendered = ' | '.join(texts)
         panicked = any(('proc macro panicked' in t or 'internal compiler error' in t or 'custom attribute panicked' in t or 'proc-macro derive panicked' in t)
